@@ -277,6 +277,36 @@ def decoration_table() -> list[dict]:
             return
         out.append({"rule": "C19.decoration", "key": label, "msg": f"{label}: accepted by @inject"})
 
+    def expect_accepted(label: str, src: str, env: dict) -> None:
+        ns: dict = dict(env)
+        try:
+            exec("from asphalt.core import inject, resource\n@inject\n" + src + "\n", ns)
+        except BaseException as e:  # noqa: BLE001
+            out.append({"rule": "C19.decoration", "key": label, "msg": f"{label}: a valid signature was rejected by @inject with {type(e).__name__}: {e}"})
+
+    class _AnyEq:
+        """An ordinary default value that compares equal to everything (like mock.ANY)."""
+
+        def __eq__(self, other: object) -> bool:
+            return True
+
+        __hash__ = object.__hash__
+
+    class _ArrayLike:
+        """An ordinary default value whose comparison has no truth value (like an ndarray)."""
+
+        def __eq__(self, other: object) -> Any:
+            return self
+
+        def __bool__(self) -> bool:
+            raise ValueError("the truth value of an array is ambiguous")
+
+        __hash__ = object.__hash__
+
+    expect_accepted("ordinary_default_eq_anything", "async def f(x, *, r: int = resource(), k=ANY): pass", {"ANY": _AnyEq()})
+    expect_accepted("ordinary_default_eq_anything_sync", "def f(x=ANY, *, r: int = resource('a')): pass", {"ANY": _AnyEq()})
+    expect_accepted("ordinary_default_arraylike", "async def f(x, *, r: int = resource(), k=ARR): pass", {"ARR": _ArrayLike()})
+
     def posonly() -> None:
         ns: dict = {}
         exec(
